@@ -233,6 +233,18 @@ DoLet(s) ==
           /\ frames' = [fo EXCEPT ![Top].pc = @ + 1]
           /\ UNCHANGED <<ctx, contents, content, bufs, writer, out, rv, err, mode>>
 
+\* {{ n, n2 := gmap["hit" | "nokey"] }}: the two-value map lookup declares BOTH variables in the list's scope,
+\* whether the key is present (s.g = "hit": n is the stored value, n2 true) or not (n is nil, n2 false)
+DoLookup(s) ==
+  LET ns == IF F.opened THEN [heap |-> heap, cur |-> cur] ELSE NewScope(heap, cur)
+      fo == IF F.opened THEN frames ELSE [frames EXCEPT ![Top].opened = TRUE, ![Top].sc = cur]
+      hit == s.g = "hit"
+      h1 == IF s.n = "_" THEN ns.heap ELSE Bind(ns.heap, ns.cur, s.n, IF hit THEN "hv" ELSE Nil)
+      h2 == IF s.n2 = "_" THEN h1 ELSE Bind(h1, ns.cur, s.n2, IF hit THEN "true" ELSE "false")
+  IN /\ heap' = h2 /\ cur' = ns.cur
+     /\ frames' = [fo EXCEPT ![Top].pc = @ + 1]
+     /\ UNCHANGED <<ctx, contents, content, bufs, writer, out, rv, err, mode>>
+
 \* {{ n = e }}: innermost visible variable, error if none
 DoSet(s) ==
   LET r == Eval(s.e, heap, cur, ctx)
@@ -585,6 +597,7 @@ Exec(s) ==
     [] s.op = "ycontent" -> DoYContent(s)
     [] s.op = "include"  -> DoInclude(s)
     [] s.op \in {"execlet", "incif", "issetexec"} -> DoExec(s)
+    [] s.op = "lookup" -> DoLookup(s)
     [] s.op = "return"   -> DoReturn(s)
     [] s.op = "api"      -> DoApi(s)
 
